@@ -97,6 +97,7 @@ type channelState struct {
 
 func newChannel(ch mpx.Channel, logger logging.Logger) *channel {
 	s := acquireState()
+	vpoolGetClient(s)
 	s.ch = ch
 	s.logger = logger
 
@@ -473,6 +474,7 @@ func acquireState() *channelState {
 
 func releaseState(s *channelState) {
 	s.reset()
+	vpoolPutClient(s)
 	statePool.Put(s)
 }
 
